@@ -328,9 +328,8 @@ def run(prog, check):
     check.floor('C12.R3', 3)
     check.floor('C12.R4', 4)
     check.floor('C12.R6', 1)
-    if check.tier == 'thorough':
-        sign_parsing(prog, check, T)
-        check.floor('C12.R5', 12)
+    sign_parsing(prog, check, T)
+    check.floor('C12.R5', 12)
 
 
 def _loop_headers(g, node):
@@ -473,6 +472,7 @@ def sign_parsing(prog, check, T):
     if ctor is None:
         raise AnalysisError('Term.__init__ not found')
     check.saw(ctor)
+    ctor = flatten(prog, ctor)
     cases = []
     for outer, so in (('+', 1), ('-', -1), ('', 1)):
         cases.append((outer + 'x', so, 'x'))
@@ -552,8 +552,18 @@ def abstract_ctor(fn, text):
                     return getattr(recv, nm)(*[ev(a) for a in e.args])
             raise _Stop()
         if isinstance(e, ast.BoolOp):
-            vals = [ev(v) for v in e.values]
-            return all(vals) if isinstance(e.op, ast.And) else any(vals)
+            v = None
+            for x in e.values:
+                v = ev(x)
+                if isinstance(e.op, ast.And) and not v:
+                    return v
+                if isinstance(e.op, ast.Or) and v:
+                    return v
+            return v
+        if isinstance(e, ast.Tuple):
+            return tuple(ev(x) for x in e.elts)
+        if isinstance(e, ast.IfExp):
+            return ev(e.body) if ev(e.test) else ev(e.orelse)
         raise _Stop()
 
     def run(stmts):
@@ -567,12 +577,17 @@ def abstract_ctor(fn, text):
             elif isinstance(s, ast.Assign):
                 v = ev(s.value)
                 t = s.targets[0]
-                if isinstance(t, ast.Name):
-                    env[t.id] = v
-                elif isinstance(t, ast.Attribute) and isinstance(t.value, ast.Name) and t.value.id == 'self':
-                    fields[t.attr] = v
-                else:
-                    raise _Stop()
+                def bind(t, v):
+                    if isinstance(t, ast.Name):
+                        env[t.id] = v
+                    elif isinstance(t, ast.Attribute) and isinstance(t.value, ast.Name) and t.value.id == 'self':
+                        fields[t.attr] = v
+                    elif isinstance(t, (ast.Tuple, ast.List)) and isinstance(v, tuple) and len(v) == len(t.elts):
+                        for tt, vv in zip(t.elts, v):
+                            bind(tt, vv)
+                    else:
+                        raise _Stop()
+                bind(t, v)
             elif isinstance(s, ast.AugAssign) and isinstance(s.op, ast.Mult):
                 t = s.target
                 v = ev(s.value)
